@@ -398,6 +398,9 @@ class ResNetwork(GeoNetwork):
         self.sparse_R = sparse.lil_matrix(
             np.linalg.pinv(self.admittance_lapacian()))
 
+        # the stored effective resistances belong to the previous R
+        self._effective_resistances = None
+
     def get_R(self):
         """Return the pseudo inverse of of the admittance Laplacian
 
